@@ -3,8 +3,8 @@ import Dashu.Props.GenFloatAdd
   Tie A theorems for C03 / C15: the by-reference forms of the operators `FBig + FBig`, `FBig - FBig`
   (`add_val_ref`, `add_ref_ref` of float/src/add.rs, reached from `Add<&FBig> for FBig`, `Add<&FBig> for &FBig`,
   `Sub…`) AS REGENERATED on this run compute, at the precision `Context::max` of the two operands, the value that the
-  hand-written model's `opAddSub` (`Proofs/Float/Review.lean`) names: a zero operand returns the other one unrounded
-  (sign applied), otherwise the value of `ctxAddSub`; they panic exactly for an infinite operand.  Hence the two
+  hand-written model's `opAddSub` (`Proofs/Float/Review.lean`) names: a zero operand returns the other one (sign
+  applied) rounded to that precision (`context.repr_round(..).value()`, fix 164990d), otherwise the value of `ctxAddSub`; they panic exactly for an infinite operand.  Hence the two
   forms agree with each other for all operands.  Core Lean only.
 -/
 set_option linter.unusedSimpArgs false
@@ -15,8 +15,8 @@ open Dashu Dashu.Gen Dashu.GluePrelude Dashu.Proofs.Gen Dashu.Model.Float Dashu.
     this file stays Mathlib-free) -/
 def formValue (B : Nat) (m : Mode) (c : Coarse) (dub : Int → Nat) (p : Nat) (lhs rhs : Model.Float.FRepr) (rs : Int) :
     Model.Float.FRepr :=
-  if lhs.isZero then ⟨rs * rhs.signif, rhs.exp⟩
-  else if rhs.isZero then lhs
+  if lhs.isZero then (reprRound B m c p ⟨rs * rhs.signif, rhs.exp⟩).1
+  else if rhs.isZero then (reprRound B m c p lhs).1
   else (ctxAddSub B m c dub p lhs rhs rs).1
 
 theorem context_max_eq (p q : Nat) : Context_max ⟨(p : Int)⟩ ⟨(q : Int)⟩ = ⟨((Nat.max p q : Nat) : Int)⟩ := by
@@ -45,7 +45,8 @@ theorem add_val_ref_is_model (B : Nat) (m : Mode) (c : Coarse) (dub : Int → Na
   simp only [context_max_eq, assert_finite_operands, Repr_is_infinite, Repr_is_zero, Model.Float.FRepr.isZero, is_zero_int,
     eq_int, ne_int, cmp_int, int_mul_sign, sign_mul_int_eq, FBig_new, add_int, sub_int]
   gcases h1 : ls = 0 <;> gcases h2 : le = 0 <;> gcases h3 : rs = 0 <;> gcases h4 : re = 0
-  all_goals (try simp only [apply_eq, toG, Int.mul_comm, Int.zero_mul, Int.mul_zero])
+  all_goals (try simp only [apply_eq, toG, Int.mul_comm, Int.zero_mul, Int.mul_zero, repr_round_is_model,
+    repr_round_ref_is_model, value_toGA])
   all_goals (try (
     rcases int_tri le re with ⟨h_lt, h_ne, h_ngt, h_nge, h_le, h_cmp⟩ | ⟨h_nlt, h_eq, h_ngt, h_ge, h_le, h_cmp⟩ |
         ⟨h_nlt, h_ne, h_gt, h_ge, h_nle, h_cmp⟩
@@ -57,6 +58,13 @@ theorem add_val_ref_is_model (B : Nat) (m : Mode) (c : Coarse) (dub : Int → Na
           Int.mul_one, Int.mul_neg, Int.neg_mul, Int.sub_eq_add_neg, value_toGA, toG])
     · simp only [h_cmp, h_ne, h_gt, if_false, if_true, repr_add_large_small_is_model B m c dub _ ls le rs re sg h_ge h1 h3,
         value_toGA, toG]))
+  -- zero-operand arms (fix 164990d): `context.repr_round(other).value()`; the other operand is finite here
+  all_goals (try (
+    have hc : ¬ (rs * rsI sg = 0 ∧ re ≠ 0) := by
+      rintro ⟨h0, _⟩
+      rcases rsI_cases sg with h | h <;> rw [h] at h0 <;> omega
+    simp only [hc, if_false, value_toGA, toG]))
+  all_goals (try simp only [h1, ne_eq, not_true_eq_false, and_false, false_and, if_false, value_toGA, toG])
 
 /-- **`add_ref_ref` (`&FBig ± &FBig`) as regenerated** -/
 theorem add_ref_ref_is_model (B : Nat) (m : Mode) (c : Coarse) (dub : Int → Nat) (ls le : Int) (pl : Nat) (rs re : Int)
@@ -68,7 +76,8 @@ theorem add_ref_ref_is_model (B : Nat) (m : Mode) (c : Coarse) (dub : Int → Na
   simp only [context_max_eq, assert_finite_operands, Repr_is_infinite, Repr_is_zero, Model.Float.FRepr.isZero, is_zero_int,
     eq_int, ne_int, cmp_int, int_mul_sign, sign_mul_int_eq, FBig_new, add_int, sub_int]
   gcases h1 : ls = 0 <;> gcases h2 : le = 0 <;> gcases h3 : rs = 0 <;> gcases h4 : re = 0
-  all_goals (try simp only [apply_eq, toG, Int.mul_comm, Int.zero_mul, Int.mul_zero])
+  all_goals (try simp only [apply_eq, toG, Int.mul_comm, Int.zero_mul, Int.mul_zero, repr_round_is_model,
+    repr_round_ref_is_model, value_toGA])
   all_goals (try (
     rcases int_tri le re with ⟨h_lt, h_ne, h_ngt, h_nge, h_le, h_cmp⟩ | ⟨h_nlt, h_eq, h_ngt, h_ge, h_le, h_cmp⟩ |
         ⟨h_nlt, h_ne, h_gt, h_ge, h_nle, h_cmp⟩
@@ -80,6 +89,13 @@ theorem add_ref_ref_is_model (B : Nat) (m : Mode) (c : Coarse) (dub : Int → Na
           Int.mul_one, Int.mul_neg, Int.neg_mul, Int.sub_eq_add_neg, value_toGA, toG])
     · simp only [h_cmp, h_ne, h_gt, if_false, if_true, repr_add_large_small_is_model B m c dub _ ls le rs re sg h_ge h1 h3,
         value_toGA, toG]))
+  -- zero-operand arms (fix 164990d): `context.repr_round(other).value()`; the other operand is finite here
+  all_goals (try (
+    have hc : ¬ (rs * rsI sg = 0 ∧ re ≠ 0) := by
+      rintro ⟨h0, _⟩
+      rcases rsI_cases sg with h | h <;> rw [h] at h0 <;> omega
+    simp only [hc, if_false, value_toGA, toG]))
+  all_goals (try simp only [h1, ne_eq, not_true_eq_false, and_false, false_and, if_false, value_toGA, toG])
 
 /-- C15 for these two forms: they return the same result (value, precision, panic) on all operands -/
 theorem add_val_ref_eq_add_ref_ref (B : Nat) (m : Mode) (c : Coarse) (dub : Int → Nat) (ls le : Int) (pl : Nat) (rs re : Int)
